@@ -345,6 +345,16 @@ def check(run, driver):
     bad_inputs.append(("shape mismatch values", {"graph": ok3, "val_matrix": np.zeros((2, 2, 3)), "p_matrix": np.ones((2, 2, 2))}))
     bad_inputs.append(("shape mismatch p-values", {"graph": ok3, "val_matrix": np.zeros((2, 2, 2)), "p_matrix": np.ones((3, 2, 2))}))
     bad_inputs.append(("2-D graph with 3-D values", {"graph": np.full((2, 2), ""), "val_matrix": np.zeros((2, 2, 2)), "p_matrix": np.ones((2, 2, 2))}))
+    # every way the value / p-value array can disagree with the graph's shape, including the shapes NumPy would silently broadcast
+    # (singleton or missing axes: what a wrapper that squeezes its output hands over)
+    for _ in range(12 if thorough else 5):
+        N_, L_ = int(rng.integers(2, 5)), int(rng.integers(2, 4))
+        gg = np.full((N_, N_, L_), "", dtype="<U3"); gg[0, 1, 1] = "-->"
+        for shp in [(N_, N_, 1), (1, 1, 1), (N_, 1, L_), (1, N_, L_), (N_, N_), (N_, N_, L_ + 1), (N_ + 1, N_, L_), (1,), (L_,), (N_, L_), (1, 1, L_)]:
+            for which in ("val_matrix", "p_matrix"):
+                res = {"graph": gg, "val_matrix": np.zeros((N_, N_, L_)), "p_matrix": np.ones((N_, N_, L_))}
+                res[which] = np.full(shp, 0.25)
+                bad_inputs.append((f"shape mismatch {which} {shp} vs graph {(N_, N_, L_)}", res))
     for what, res in bad_inputs:
         run.case("malformed", what + repr(res["graph"].shape) + repr(res["val_matrix"].shape), True)
         try:
